@@ -22,7 +22,10 @@
 (* AscendingWithinFlush (invariants) and ExactlyOnceContribution (a step       *)
 (* property: StepOK, written in terms of the statement only -- bucket start,   *)
 (* expanded name, open/closed -- not in terms of lvl1/tsList).                 *)
-EXTENDS Integers, Sequences, FiniteSets, TLC
+(*                                                                             *)
+(* The expanded output name is computed by AggregatorNames.tla (regex match +  *)
+(* Go regexp.Expand template semantics); bucket keys ARE the output names.     *)
+EXTENDS Integers, Sequences, FiniteSets, TLC, AggregatorNames
 
 CONSTANTS Intervals, Waits, Fmts,   \* configurations explored (chosen in Init)
           Names,                    \* metric names offered ("nx" never matches the regex)
@@ -48,19 +51,27 @@ vars == <<interval, wait, fmt, now, lvl1, buckets, tsList, tooOld,
 mcview == <<interval, wait, fmt, now, lvl1, buckets, tsList, tooOld,
             closed, dbl, closedUpTo, lastT, lastFlush, nPoints, nTicks>>
 
-Keys == {"k1", "k2", "k3"}
 Min2(a, b) == IF a < b THEN a ELSE b
 Max2(a, b) == IF a > b THEN a ELSE b
 
-(* Expansion of the output format.  "flat": regex without groups, literal     *)
-(* outFmt; "g1": outFmt uses ${1}; "g12": outFmt uses ${2} and $1.  The        *)
-(* drivers build names/regex/outFmt from this table (n1 = raw.a.x, n2 =        *)
-(* raw.a.y, n3 = raw.b.x, nx = raw.a.z which passes PreMatch but not the regex)*)
+(* The statement's "expanded output name" of a point: the output format        *)
+(* expanded against the regex match (AggregatorNames.tla: ${n}/$n group text,  *)
+(* n = 0 the whole match, unknown group -> empty, $$ -> $, with or without     *)
+(* capturing groups in the regex); "" = the rule does not match the name.      *)
+(* Rules: flat (no groups, literal format), g1 g12 g0 (regex with groups) and  *)
+(* w0 w0t dd mis (NO groups, format that needs expansion).  Names: n1 =        *)
+(* raw.a.x, n2 = raw.a.y, n3 = raw.b.x, nx = raw.a.z (passes PreMatch, matches *)
+(* no regex).                                                                  *)
+OutName(f, name) == NmOut[f][name]
+
+\* Matcher.MatchRegexAndExpand as the aggregator uses it (deviation: a regex without capturing
+\* groups "has nothing to expand", the format is returned as it is)
 KeyOf(f, name) ==
-  IF name = "nx" THEN ""
-  ELSE CASE f = "flat" -> "k1"
-         [] f = "g1"   -> IF name = "n3" THEN "k2" ELSE "k1"
-         [] f = "g12"  -> (CASE name = "n1" -> "k1" [] name = "n2" -> "k3" [] OTHER -> "k2")
+  IF Mutant = "no_group_template_verbatim" /\ NmGroups[f] = 0 /\ OutName(f, name) # ""
+  THEN NmTmplText[f] ELSE OutName(f, name)
+
+\* every bucket key that can occur
+Keys == NmAllOut \cup {NmTmplText[f] : f \in NmAllFmts}
 
 \* the statement's "timestamp rounded down to the interval"
 BucketStart(ts) == (ts \div interval) * interval
@@ -195,7 +206,7 @@ Flat(fl) == UNION {{[q |-> fl[i].q, key |-> l.key, contrib |-> l.contrib] : l \i
 
 \* ExactlyOnceContribution, as a property of every step (level of the statement)
 ProcOK(name, val, ts) ==
-  LET key == KeyOf(fmt, name)
+  LET key == OutName(fmt, name)
       b == <<BucketStart(ts), key>>
       isOpen == b \in DOMAIN buckets \/ b[1] > now - wait
   IN /\ closed' = closed
